@@ -502,6 +502,14 @@ def run_stream(prop_id, cfg, scfg, seed, tier, log, stats):
                 bad, simpl, smodel, sres = rerun_case(stream, hdr, shrunk, keys, tag, want=dkeys)
             else:
                 bad0, *_ = rerun_case(stream, hdr, body, keys, tag)
+                if not bad0 and scfg.get("retry_transient"):
+                    # a stream that freezes the wall clock around real-time code: under heavy machine load a
+                    # boundary can flip once.  A disagreement that does not recur when the same case is run
+                    # alone, twice more, is recorded as transient (evidence) and not reported as a violation.
+                    again = [rerun_case(stream, hdr, body, keys, tag)[0] for _ in range(2)]
+                    if not any(again):
+                        st.setdefault("transient", []).append({"source": label, "case": hdr, "differing_keys": dkeys})
+                        continue
                 shrunk = ddmin(stream, hdr, body, keys, tag, want=dkeys) if bad0 and len(body) > 1 else body
                 bad, simpl, smodel, sres = rerun_case(stream, hdr, shrunk, keys, tag)
             violations.append({
@@ -707,7 +715,8 @@ def write_evidence(prop_id, cfg, tier, seed, stats, n_obl, n_dis, n_ex, ax_detai
                     "distinct_nontrivial = distinct case bodies (sha1 of op lines) for which the model produced at least one output line not matching the stream's trivial pattern",
             "streams": {s: {"cases": st["cases"], "ops": st["ops"], "distinct": len(st["distinct"]),
                             "distinct_nontrivial": len(st["nontrivial"]), "histogram": st["hist"],
-                            "inputs": st["sub_seeds"]} for s, st in stats.items()},
+                            "inputs": st["sub_seeds"],
+                            "transient_disagreements_not_reproduced": st.get("transient", [])} for s, st in stats.items()},
             "samples": samples if samples else [{"note": "no correspondence stream ran"}],
             "generated_facts": gen_digests,
             "anchor_digests": anchors,
